@@ -454,13 +454,39 @@ func PanicSite(stack []byte) string {
 	return "unknown"
 }
 
+// frames lists the first n pentops/j5 frames (function:line) of a stack.
+func frames(stack []byte, n int) []string {
+	lines := strings.Split(string(stack), "\n")
+	var out []string
+	for i := 0; i+1 < len(lines) && len(out) < n; i++ {
+		l := lines[i]
+		if !strings.HasPrefix(l, "github.com/pentops/j5/") || strings.Contains(l, "/internal/bcl/internal/verif") {
+			continue
+		}
+		fn := l
+		if k := strings.LastIndex(fn, "("); k > 0 {
+			fn = fn[:k]
+		}
+		fn = strings.TrimPrefix(fn, "github.com/pentops/j5/")
+		loc := strings.TrimSpace(lines[i+1])
+		if k := strings.Index(loc, " "); k > 0 {
+			loc = loc[:k]
+		}
+		if k := strings.LastIndex(loc, "/"); k >= 0 {
+			loc = loc[k+1:]
+		}
+		out = append(out, fn+"@"+loc)
+	}
+	return out
+}
+
 // Guard runs f, converting a panic into a Failure.
 func Guard(what string, f func()) (fail *Failure) {
 	defer func() {
 		if rec := recover(); rec != nil {
 			st := debug.Stack()
 			site := PanicSite(st)
-			fl := Failf("panic|"+site+"|"+ErrClass(fmt.Errorf("%v", rec)), "%s: panic: %v", what, rec)
+			fl := Failf("panic|"+site+"|"+ErrClass(fmt.Errorf("%v", rec)), "%s: panic: %v\nframes: %s", what, rec, strings.Join(frames(st, 6), " <- "))
 			fail = &fl
 		}
 	}()
@@ -623,6 +649,7 @@ var (
 	reNum    = regexp.MustCompile(`-?\b\d+(\.\d+)?\b`)
 	reIdent  = regexp.MustCompile(`\b[a-zA-Z_][\w]*(\.[\w]+)+\b`)
 	reSpace  = regexp.MustCompile(`\s+`)
+	reFile   = regexp.MustCompile(`[\w./-]+\.(proto|j5s)(:\d+(:\d+)?)?`)
 	reGoType = regexp.MustCompile(`\*[a-z][a-z0-9_]*\.[A-Z][A-Za-z0-9_]*`)
 )
 
@@ -636,6 +663,7 @@ func ErrClass(err error) string {
 	// protobuf-go randomises "proto: " vs "proto:\u00a0" per binary on purpose
 	s = strings.ReplaceAll(s, "\u00a0", " ")
 	s = reQuoted.ReplaceAllString(s, "Q")
+	s = reFile.ReplaceAllString(s, "FILE")
 	// Go type names (*pkg.Type) are structural: keep them
 	types := reGoType.FindAllString(s, -1)
 	s = reGoType.ReplaceAllString(s, "\x00")
@@ -646,7 +674,8 @@ func ErrClass(err error) string {
 	s = reNum.ReplaceAllString(s, "N")
 	s = reSpace.ReplaceAllString(s, " ")
 	if len(s) > 90 {
-		s = s[:90]
+		// the root cause is at the end of a wrapped error chain
+		s = "…" + s[len(s)-90:]
 	}
 	return s
 }
